@@ -44,7 +44,8 @@ Record mstate := mk_mstate {
   ms_pat_cc : wrappingCounter;
   ms_pmt_cc : wrappingCounter;
   ms_es : list (Z * esctx);                   (* esContexts: at most one entry per PID, insertion order *)
-  ms_retransmit : Z                           (* tablesRetransmitCounter *)
+  ms_retransmit : Z;                          (* tablesRetransmitCounter *)
+  ms_removed : list (Z * wrappingCounter)     (* removedCCs: the counter a removed PID carries on with when it is added again *)
 }.
 (* patBytes / pmtBytes are rebuilt by every WriteTables before they are read and influence nothing else;
    pmt.ProgramDescriptors stays nil and pmt.ProgramNumber stays programNumberStart; the program map
@@ -67,35 +68,37 @@ Definition new_muxer (period : Z) : mstate :=
      ms_pat_cc := newWrappingCounter cc_wrap;
      ms_pmt_cc := newWrappingCounter cc_wrap;
      ms_es := [];
-     ms_retransmit := period |}.
+     ms_retransmit := period;
+     ms_removed := [] |}.
 
 (* field updates *)
-Definition set_streams_es (s : mstate) (l : list PMTElementaryStream) (es : list (Z * esctx)) (np : Z) : mstate :=
+Definition set_streams_es (s : mstate) (l : list PMTElementaryStream) (es : list (Z * esctx)) (np : Z)
+    (rm : list (Z * wrappingCounter)) : mstate :=
   {| ms_period := ms_period s; ms_streams := l; ms_pcr_pid := ms_pcr_pid s; ms_pm_updated := ms_pm_updated s;
      ms_pmt_updated := true; ms_next_pid := np; ms_pat_version := ms_pat_version s;
      ms_pmt_version := ms_pmt_version s; ms_pat_cc := ms_pat_cc s; ms_pmt_cc := ms_pmt_cc s;
-     ms_es := es; ms_retransmit := ms_retransmit s |}.
+     ms_es := es; ms_retransmit := ms_retransmit s; ms_removed := rm |}.
 Definition set_pcr (s : mstate) (pid : Z) : mstate :=
   {| ms_period := ms_period s; ms_streams := ms_streams s; ms_pcr_pid := pid; ms_pm_updated := ms_pm_updated s;
      ms_pmt_updated := true; ms_next_pid := ms_next_pid s; ms_pat_version := ms_pat_version s;
      ms_pmt_version := ms_pmt_version s; ms_pat_cc := ms_pat_cc s; ms_pmt_cc := ms_pmt_cc s;
-     ms_es := ms_es s; ms_retransmit := ms_retransmit s |}.
+     ms_es := ms_es s; ms_retransmit := ms_retransmit s; ms_removed := ms_removed s |}.
 Definition set_retransmit (s : mstate) (c : Z) : mstate :=
   {| ms_period := ms_period s; ms_streams := ms_streams s; ms_pcr_pid := ms_pcr_pid s; ms_pm_updated := ms_pm_updated s;
      ms_pmt_updated := ms_pmt_updated s; ms_next_pid := ms_next_pid s; ms_pat_version := ms_pat_version s;
      ms_pmt_version := ms_pmt_version s; ms_pat_cc := ms_pat_cc s; ms_pmt_cc := ms_pmt_cc s;
-     ms_es := ms_es s; ms_retransmit := c |}.
+     ms_es := ms_es s; ms_retransmit := c; ms_removed := ms_removed s |}.
 Definition set_es (s : mstate) (es : list (Z * esctx)) : mstate :=
   {| ms_period := ms_period s; ms_streams := ms_streams s; ms_pcr_pid := ms_pcr_pid s; ms_pm_updated := ms_pm_updated s;
      ms_pmt_updated := ms_pmt_updated s; ms_next_pid := ms_next_pid s; ms_pat_version := ms_pat_version s;
      ms_pmt_version := ms_pmt_version s; ms_pat_cc := ms_pat_cc s; ms_pmt_cc := ms_pmt_cc s;
-     ms_es := es; ms_retransmit := ms_retransmit s |}.
+     ms_es := es; ms_retransmit := ms_retransmit s; ms_removed := ms_removed s |}.
 (* the six fields WriteTables snapshots and restores *)
 Definition set_tables (s : mstate) (patv pmtv patcc pmtcc : wrappingCounter) (pmu pmtu : bool) : mstate :=
   {| ms_period := ms_period s; ms_streams := ms_streams s; ms_pcr_pid := ms_pcr_pid s; ms_pm_updated := pmu;
      ms_pmt_updated := pmtu; ms_next_pid := ms_next_pid s; ms_pat_version := patv;
      ms_pmt_version := pmtv; ms_pat_cc := patcc; ms_pmt_cc := pmtcc;
-     ms_es := ms_es s; ms_retransmit := ms_retransmit s |}.
+     ms_es := ms_es s; ms_retransmit := ms_retransmit s; ms_removed := ms_removed s |}.
 
 (* ---------------- operations and results ---------------- *)
 
@@ -121,13 +124,14 @@ Definition blen (bs : list Z) : Z := Z.of_nat (length bs).
 
 (* ---------------- esContexts ---------------- *)
 
-Definition es_find (pid : Z) (l : list (Z * esctx)) : option esctx :=
+(* Go maps keyed by PID as association lists (used for esContexts and removedCCs) *)
+Definition es_find {A} (pid : Z) (l : list (Z * A)) : option A :=
   option_map snd (find (fun p => fst p =? pid) l).
-Definition es_mem (pid : Z) (l : list (Z * esctx)) : bool := existsb (fun p => fst p =? pid) l.
-Definition es_del (pid : Z) (l : list (Z * esctx)) : list (Z * esctx) :=
+Definition es_mem {A} (pid : Z) (l : list (Z * A)) : bool := existsb (fun p => fst p =? pid) l.
+Definition es_del {A} (pid : Z) (l : list (Z * A)) : list (Z * A) :=
   filter (fun p => negb (fst p =? pid)) l.
-(* m.esContexts[pid] = ctx *)
-Definition es_put (pid : Z) (c : esctx) (l : list (Z * esctx)) : list (Z * esctx) :=
+(* m[pid] = c *)
+Definition es_put {A} (pid : Z) (c : A) (l : list (Z * A)) : list (Z * A) :=
   if es_mem pid l then map (fun p => if fst p =? pid then (pid, c) else p) l else l ++ [(pid, c)].
 
 Definition stream_pid_in (pid : Z) (l : list PMTElementaryStream) : bool :=
@@ -150,17 +154,26 @@ Definition with_pid (es : PMTElementaryStream) (pid : Z) : PMTElementaryStream :
 Definition new_es_context (es : PMTElementaryStream) : esctx :=
   {| ec_cc := newWrappingCounter cc_wrap; ec_es := es |}.
 
+(* ctx := newEsContext(&es); if cc, ok := m.removedCCs[pid]; ok { ctx.cc = cc; delete(m.removedCCs, pid) } *)
+Definition readded_context (es : PMTElementaryStream) (pid : Z) (rm : list (Z * wrappingCounter)) : esctx :=
+  match es_find pid rm with
+  | Some cc => {| ec_cc := cc; ec_es := es |}
+  | None => new_es_context es
+  end.
+
 Definition add_es (s : mstate) (es : PMTElementaryStream) : mstate * res unit :=
   let pid := PMTElementaryStream_ElementaryPID es in
   if negb (pid =? 0) then
     if stream_pid_in pid (ms_streams s) then (s, Err E_pid_exists)
-    else (set_streams_es s (ms_streams s ++ [es]) (es_put pid (new_es_context es) (ms_es s)) (ms_next_pid s), Ok tt)
+    else (set_streams_es s (ms_streams s ++ [es]) (es_put pid (readded_context es pid (ms_removed s)) (ms_es s)) (ms_next_pid s)
+            (es_del pid (ms_removed s)), Ok tt)
   else
     match next_free_pid (S (S (length (ms_es s)))) (ms_es s) (ms_next_pid s) with
     | None => (s, Panic)
     | Some p =>
         let es' := with_pid es p in
-        (set_streams_es s (ms_streams s ++ [es']) (es_put p (new_es_context es') (ms_es s)) ((p + 1) mod 65536), Ok tt)
+        (set_streams_es s (ms_streams s ++ [es']) (es_put p (readded_context es' p (ms_removed s)) (ms_es s)) ((p + 1) mod 65536)
+           (es_del p (ms_removed s)), Ok tt)
     end.
 
 (* the slice without its first element of the given PID *)
@@ -172,7 +185,11 @@ Fixpoint remove_first_pid (pid : Z) (l : list PMTElementaryStream) : list PMTEle
 
 Definition remove_es (s : mstate) (pid : Z) : mstate * res unit :=
   if stream_pid_in pid (ms_streams s)
-  then (set_streams_es s (remove_first_pid pid (ms_streams s)) (es_del pid (ms_es s)) (ms_next_pid s), Ok tt)
+  then (set_streams_es s (remove_first_pid pid (ms_streams s)) (es_del pid (ms_es s)) (ms_next_pid s)
+          (match es_find pid (ms_es s) with
+           | Some ctx => es_put pid (ec_cc ctx) (ms_removed s)     (* m.removedCCs[pid] = ctx.cc *)
+           | None => ms_removed s
+           end), Ok tt)
   else (s, Err E_pid_not_found).
 
 (* ---------------- writePacket as the Muxer uses it ---------------- *)
